@@ -112,11 +112,19 @@ def excluded_shape():
                    r"return dirname not in _HARDCODED_EXCLUDE_DIRS and \(not dirname\.endswith\(('[^']*')\)\)")
     if ast.literal_eval(m2.group(1)) != suf or not suf:
         raise Unsupported("the two .egg-info suffix literals differ")
-    # lint_file must apply it to the path exactly as received, before anything else
+    # lint_file applies it first: to the path exactly as received (current tree) or to the path re-rooted at the project root
+    # (the shape of proposed_fixes/C09-exclusion-inside-project.diff, under which the faithful model needs no quirk)
     lf = _body(_fn(CORE, "Orchestrator", "lint_file"))
-    if not lf.startswith("if _is_hardcoded_excluded(file_path):\n    return []\nif self.ignore_parser.is_ignored(file_path):\n    return []\n"):
+    tail = "    return []\nif self.ignore_parser.is_ignored(file_path):\n    return []\n"
+    if lf.startswith("if _is_hardcoded_excluded(file_path):\n" + tail):
+        scope = "ScGivenParts"
+    elif lf.startswith("if _is_hardcoded_excluded(self._path_inside_project(file_path)):\n" + tail):
+        _shape(CORE, "Orchestrator", "_path_inside_project", {
+            "try:\n    return file_path.resolve().relative_to(self.project_root.resolve())\nexcept (ValueError, OSError):\n    return file_path": 1})
+        scope = "ScProjectRelParts"
+    else:
         raise Unsupported("Orchestrator.lint_file no longer starts with the two modelled path filters")
-    return defn("excluded_suffix_of_part", "string", coq_string(suf)) + defn("hard_exclusion_scope", "pscope", "ScGivenParts")
+    return defn("excluded_suffix_of_part", "string", coq_string(suf)) + defn("hard_exclusion_scope", "pscope", scope)
 
 
 # ---------------------------------------------------------------- repo-level ignore
